@@ -38,6 +38,18 @@ T = {
     "MC_C11_q": dict(calls=3, flush=1, cfgs="C_CfgsWide"),
     "MC_C11_t": dict(calls=4, flush=2, cfgs="C_CfgsWide"),
 }
+T.update({
+    # concurrent instances (module MC_Conc)
+    "MC_C07_q": dict(calls=3, flush=1, conc="TRUE", cfgs="C_CfgsCache"),
+    "MC_C07_t": dict(calls=3, flush=2, conc="TRUE", cfgs="C_CfgsCache"),
+    "MC_C04_q": dict(calls=2, flush=2, faults=1, conc="TRUE", cfgs="C_CfgsRot"),
+    "MC_C04_t": dict(calls=3, flush=2, faults=2, conc="TRUE", cfgs="C_CfgsRot"),
+    "MC_C14_q": dict(calls=3, flush=1, reopen=1, conc="TRUE", cfgs="C_CfgsRot"),
+    "MC_C14_t": dict(calls=3, flush=2, reopen=2, conc="TRUE", cfgs="C_CfgsRot"),
+    "MC_C08_q": dict(calls=3, flush=1, faults=0, conc="TRUE", cfgs="C_CfgsRot"),
+    "MC_C08_f": dict(calls=3, flush=1, faults=1, conc="TRUE", cfgs="C_CfgsRot3"),
+    "MC_C08_t": dict(calls=3, flush=2, faults=1, conc="TRUE", cfgs="C_CfgsRot"),
+})
 for name, over in T.items():
     d = dict(D)
     d.update(over)
